@@ -124,6 +124,9 @@ def run_build(ctx, rng, pool, root, assign, out_state, out_fmt, lua_from_file):
     expected = {}
     defaults = empty_defaults()
     desc = {}
+    used_files = {}
+    if exists:
+        used_files[os.path.basename(out)] = data
     for sec, ch in zip(SECTIONS, assign):
         choice = CHOICES[ch]
         desc[sec] = choice
@@ -141,7 +144,10 @@ def run_build(ctx, rng, pool, root, assign, out_state, out_fmt, lua_from_file):
                 src = rng.choice(pool.items[choice])
                 expected[sec] = src['code'] if sec == 'lua' else src['regions'][sec]
             argv += ['--' + sec, src['path']]
-    case = {'argv': argv[2:], 'assign': desc, 'out_state': out_state if exists else 'absent', 'out_fmt': out_fmt}
+            used_files[os.path.basename(src['path'])] = open(src['path'], 'rb').read()
+    case = {'argv': [os.path.basename(a) if os.sep in a else a for a in argv[2:]], 'assign': desc,
+            'out_state': out_state if exists else 'absent', 'out_fmt': out_fmt, 'files': used_files,
+            'expected': dict(expected), 'prev_label': prev_label}
     nontrivial = any(c != 'none' for c in desc.values())
     ctx.case((tuple(argv[3:]), out_state, out_fmt, repr(sorted(desc.items()))), nontrivial=nontrivial)
     for sec in SECTIONS:
@@ -267,7 +273,13 @@ def run_error(ctx, rng, pool, root):
         argv[2] = out
         before = None
         exists = False
-    case = {'argv': argv[2:], 'error_kind': kind}
+    efiles = {}
+    for a in argv[3:]:
+        if os.sep in a and os.path.isfile(a):
+            efiles[os.path.basename(a)] = open(a, 'rb').read()
+    if exists:
+        efiles[os.path.basename(out)] = before
+    case = {'argv': [os.path.basename(a) if os.sep in a else a for a in argv[2:]], 'error_kind': kind, 'files': efiles}
     ctx.case((kind, tuple(argv[3:]), exists), nontrivial=True)
     ctx.feature('error:' + kind)
     listing = sorted(os.listdir(root))
@@ -313,7 +325,61 @@ def run_shard(spec, ctx):
 
 
 def replay(case, ctx):
-    ctx.inconclusive_because('C13 cases use generated source pools; rerun with the same VERIF_SEED. Invocation: %r' % (case.get('argv'),))
+    """Rebuilds the recorded files in a temp dir, re-runs the recorded invocation and compares every section of OUT with
+    the recorded expectation (reference reader)."""
+    from pico8 import tool
+    root = tempfile.mkdtemp(prefix='vf-c13-')
+    try:
+        for name, data in case.get('files', {}).items():
+            with open(os.path.join(root, name), 'wb') as fh:
+                fh.write(data)
+        argv = ['-q', 'build'] + [os.path.join(root, a) if (a.endswith(('.p8', '.png', '.lua', '.txt'))) else a for a in case['argv']]
+        out = argv[2]
+        ctx.case(repr(case['argv']))
+        if 'error_kind' in case:
+            before = open(out, 'rb').read() if os.path.exists(out) else None
+            try:
+                rcode = tool.main(argv)
+            except BaseException:
+                rcode = 1
+            now = open(out, 'rb').read() if os.path.exists(out) else None
+            if not rcode:
+                ctx.violation('unusable invocation (%s) succeeded' % case['error_kind'], case)
+            elif now != before:
+                ctx.violation('failed build (%s) touched OUT' % case['error_kind'], case)
+            return
+        try:
+            rcode = tool.main(argv)
+        except BaseException as e:
+            ctx.violation('build raised %r' % (e,), case)
+            return
+        if rcode:
+            ctx.violation('build returned %r for a usable invocation' % rcode, case)
+            return
+        data = open(out, 'rb').read()
+        if case['out_fmt'] == 'p8':
+            ref = rc.read_p8(data)
+            got = {s: ref[s] for s in SECTIONS if s != 'lua'}
+            got['lua'] = ref['code']
+            if ref['label'] != case.get('prev_label') and (case['out_state'] != 'absent' or case.get('prev_label') is not None):
+                ctx.violation('.p8 OUT label section lost or changed', case)
+                return
+        else:
+            ref = rc.read_p8png(data)
+            got = {s: ref[s] for s in SECTIONS if s != 'lua'}
+            got['lua'] = rc.decode_code_area(ref['code_area'], ref['version'])
+            prev = case.get('files', {}).get('out.p8.png')
+            if prev is not None and rc.upper_bits(ref['rows']) != rc.upper_bits(rc.read_p8png(prev)['rows']):
+                ctx.violation('.p8.png OUT label picture differs from its previous picture', case)
+                return
+        for sec in SECTIONS:
+            want = case['expected'][sec]
+            same = code_equal(got['lua'], want) if sec == 'lua' else got[sec] == want
+            if not same:
+                ctx.violation('section %s of OUT is not the one selected (%s)' % (sec, case['assign'].get(sec)), case)
+                return
+    finally:
+        shutil.rmtree(root, ignore_errors=True)
 
 
 def gates(m, tier):
